@@ -203,7 +203,7 @@ def correspondence(ctx, model_ok=True):
     shp = [("gen:" + n, s) for n, s in shapes.all_shapes()]
     # every statement form of the catalogue (tools/gen/stmts.py) 20 000 times inside one activation: a slot left behind (or taken) per
     # pass by ANY instruction overruns (or underruns) the 16 384-slot value stack
-    loops = stmts.loop_programs(60000 if ctx.thorough else 20000)
+    loops = stmts.loop_programs(60000 if ctx.thorough else 20000) + stmts.failing_loop_programs(60000 if ctx.thorough else 20000)
     plist = [(n, s, {}) for n, s in sweeps] + [(n, s, m) for n, s, m, _ in gen] + [(n, s, {}) for n, s in shp] + loops
     known = KNOWN
     builds = [("release", ctx.runner, {"gc": "default"})]
@@ -225,6 +225,9 @@ def correspondence(ctx, model_ok=True):
         heavy = [p for p in todo if not p[0].startswith(("gen:", "stmtloop:"))]
         light = [p for p in todo if p[0].startswith("gen:")]
         lps = [p for p in todo if p[0].startswith("stmtloop:")]
+        if bname != "release":
+            # caught failures allocate an error object per pass: 1 500 passes each in the checked build, the full count in the optimised one
+            lps = [p for p in lps if not p[0].startswith("stmtloop:fail")] + stmts.failing_loop_programs(1500)
         res_h, _ = progs.run_programs(exe, heavy, mode, steps_budget=400000000, tag=bname[0], timeout_per_batch=5400, batch=1)
         # short programs, several per process (a process that dies is bisected down to the program that killed it)
         # (the checked build runs them without collections: this sweep is about the operand stack, and a collection at every allocation
@@ -244,6 +247,8 @@ def correspondence(ctx, model_ok=True):
             c = progs.canon_step(r)
             if not bad and name.split(":")[0] in ("natives", "natives3", "binop", "misc", "limit", "stmtloop") and (c[0] != "ok" or not c[2] or c[2][-1] != "done"):
                 bad = "sweep program ended with %s %s instead of running to completion" % (c[0], list(c[3])[:1])
+            if not bad and name.startswith("stmtloop:") and tuple(c[2]) != ("done",):
+                bad = "a statement form repeated in one activation printed %s instead of only 'done': a local below the statement, or a global, was clobbered" % (list(c[2])[:3],)
             if not bad and name.startswith("F") and (c[0] != "ok" or c[2][-1:] != ("done",)):
                 bad = "ended with %s %s" % (c[0], list(c[3])[:1])
             if bad:
